@@ -229,4 +229,76 @@ for _op in ('expand_position', 'close_full', 'close_partial', 'emergency_open'):
                bounds='state of C05; alice holds one position filled in two pieces with symbolic sizes; symbolic amounts', covers=['ok'],
                replay=_replay_w(_op))(_ob_weights(_op, pieces=2))
 
+
+# ---------------------------------------------------------------- a user at the limit of closed positions who still has an open one
+
+def _replay_many_closed(m):
+    ep = 20
+    pos = [('u-a%d' % k, LP1, 5, DAY, 'zoe', m['now_s'] + 50 * DAY) for k in range(10)]
+    pos += [('u-y', LP1, m['py'], 30 * DAY, 'zoe', None), ('u-z', LP1, m['pz'], 30 * DAY, 'zoe', None)]
+    return {'now_s': m['now_s'], 'positions': pos, 'counters': {'position': 30},
+            'weights': [('zoe', LP1, ep, m['w_zoe']), ('farm_manager', LP1, ep, m['T'])],
+            'mints': [('farm_manager', [(LP1, 50 + m['py'] + m['pz'])])],
+            'txs': [('zoe', {'manage_position': {'action': {'withdraw': {'identifier': 'u-y', 'emergency_unlock': True}}}}, [])]}
+
+
+@obligation('C10', 'S4.open_position_behind_ten_closed_ones', entries=['execute', 'withdraw_position', 'reconcile_user_state', 'update_weights'], kind='S',
+            statement='a user holding the maximum of ten closed positions (identifiers sorting first) and two open ones leaves ONE open position by emergency exit: '
+                      'she keeps the weight of the remaining open position, the total drops by the weight of the position she left, her history is not wiped',
+            bounds='10 closed + 2 open positions of one user, symbolic amounts / time; no farms', covers=['ok'], replay=fm_replay(lambda m: _replay_many_closed(m)))
+def s4_many_closed(I):
+    I.set_hint({'now_s': 20 * DAY + 5, 'epoch': 20, 'py': 10 ** 5, 'pz': 2 * 10 ** 5, 'w_zoe': 352200, 'T': 10 ** 7})
+    fm_config(I)
+    now = I.sym('now_s', hi=U64 // NS - 3 * YEAR)
+    ep = 20                      # concrete epoch (the weight snapshots are observed by epoch number); the time inside it is symbolic
+    set_epoch(I, ep, now_s=now)
+    I.world.store(FM)['position_id_counter'] = 30
+    b = bank_of(I)
+    py = I.sym('py', lo=1, hi=U128 // 64)
+    pz = I.sym('pz', lo=1, hi=U128 // 64)
+    for k in range(10):
+        put_position(I, position('u-a%d' % k, LP1, 5, DAY, 'zoe', simp(now + 50 * DAY)))
+    put_position(I, position('u-y', LP1, py, 30 * DAY, 'zoe', None))
+    put_position(I, position('u-z', LP1, pz, 30 * DAY, 'zoe', None))
+    b.set(FM, LP1, simp(50 + py + pz))
+    ws = []
+    for part in (py, pz):
+        st_, r_ = I.try_call('calculate_weight', [Ref([coin_v(LP1, part)], 0), 30 * DAY], CR)
+        if st_ != 'ok' or not is_ok(r_):
+            raise Infeasible()
+        ws.append(r_.f[0])
+    wz = I.sym('w_zoe', lo=1, hi=U128 // 4)
+    I.assume(smt.Eq(wz, ws[0] + ws[1]))
+    T = I.sym('T', lo=1, hi=U128 // 2)
+    I.assume(T >= wz)
+    put_weight(I, 'zoe', LP1, ep, wz)
+    put_weight(I, FM, LP1, ep, T)
+    ch = Chain(I, CONTRACTS_FM)
+    st, _ = ch.execute('zoe', FM, manage_position('Withdraw', identifier='u-y', emergency_unlock=Some(True)), [])
+    I.observe('status', 'ok' if st == 'ok' else 'err')
+    for e_ in (ep, ep + 1):
+        for u in ('zoe', FM):
+            I.observe('snap:%s:%s:%d' % (u, LP1, e_), dict(weights_of(I, u, LP1)).get(e_))
+    observe_position(I, 'u-y')
+    observe_position(I, 'u-z')
+    observe_balances(I, b, [('zoe', LP1), (FM, LP1)])
+    if st != 'ok':
+        I.outcome('rejected')
+        return
+    I.cover('ok')
+    nxt = ep + 1
+    zs = weights_of(I, 'zoe', LP1)
+    ts = weights_of(I, FM, LP1)
+
+    def latest(snaps):
+        # the snapshot recorded for the next epoch if any, else the carried one
+        for e_, w_ in snaps:
+            if I.values_eq(e_, nxt) is True:
+                return w_
+        return None
+    zw, tw = latest(zs), latest(ts)
+    I.check('user_keeps_the_weight_of_her_remaining_open_position', zw is not None and smt.Eq(zw, ws[1]))
+    I.check('total_drops_by_the_weight_of_the_position_left', tw is not None and smt.Eq(tw, T - ws[0]))
+    I.check('remaining_open_position_untouched', get_position(I, 'u-z') is not None and get_position(I, 'u-z').get('open') is True)
+
 from . import lockdep   # noqa: E402,F401  (cross-contract locked-deposit obligations registered for this property)
